@@ -145,7 +145,7 @@ def molecules(ctx):
     rng = ctx.rng
     out = list(molgen.handmade())
     out += [(t, molgen.parse(t)) for t in SYMMETRIC + STEREO_PAIRS + ISOTOPES + EXPLICIT_H_STEREO + ez_catalogue() + OLIGOMERS
-            + RADICALS + COORDINATED + oligomers(rng, 30 if ctx.quick else 200) if molgen.parse(t) is not None]
+            + RADICALS + COORDINATED + ALLENES + oligomers(rng, 30 if ctx.quick else 200) if molgen.parse(t) is not None]
     out += molgen.corpus(rng, 300 if ctx.quick else 1500)
     n_small = 5 if ctx.quick else 6
     graphs = [g for k in range(2, n_small + 1) for g in molgen.unlabeled_small_graphs(k)]
@@ -667,6 +667,16 @@ def _odd(a, b):
     return sum(1 for i in range(len(p)) for j in range(i + 1, len(p)) if p[i] > p[j]) % 2 == 1
 
 
+def _ends_sign(env, a, b, s):
+    """label of a double bond / allene relative to the substituent pair (a, b), given the stored label `s` relative to
+    env = (n0, n1, n2, n3) (n0, n2 on one end; n1, n3 on the other). Written here from the meaning of the label — exchanging the
+    reference substituent on exactly one end inverts it — not by calling the library's translation functions."""
+    ia, ib = env.index(a), env.index(b)
+    if ia % 2 == ib % 2:
+        raise ValueError('substituents of the same end')
+    return s ^ ((ia >= 2) != (ib >= 2))
+
+
 def reorder(rng, mol):
     """Same structure: new atom numbers, random insertion order of atoms, of adjacency rows and of neighbour dicts.
     Stereo labels are stored relative to the neighbour *insertion order*, so they are re-expressed for the new order
@@ -703,7 +713,7 @@ def _restereo(mol, c, mapping):
             new_a[n2] = a._stereo ^ _odd(st[n], new_env)
         elif n in sa:
             e = c.stereogenic_allenes[n2]
-            new_a[n2] = mol._translate_allene_sign(n, inv[e[0]], inv[e[1]])
+            new_a[n2] = _ends_sign(sa[n], inv[e[0]], inv[e[1]], a._stereo)
         else:
             raise ValueError('stereo label on an atom that is not stereogenic')
     ctc = mol._stereo_cis_trans_centers
@@ -712,12 +722,8 @@ def _restereo(mol, c, mapping):
         if mol._bonds[i][j]._stereo is None:
             continue
         n2, m2 = mapping[n], mapping[m]
-        if (n2, m2) in c.stereogenic_cis_trans:
-            e = c.stereogenic_cis_trans[(n2, m2)]
-            s = mol._translate_cis_trans_sign(n, m, inv[e[0]], inv[e[1]])
-        else:
-            e = c.stereogenic_cis_trans[(m2, n2)]
-            s = mol._translate_cis_trans_sign(m, n, inv[e[0]], inv[e[1]])
+        e = c.stereogenic_cis_trans[(n2, m2)] if (n2, m2) in c.stereogenic_cis_trans else c.stereogenic_cis_trans[(m2, n2)]
+        s = _ends_sign(sc[(n, m)], inv[e[0]], inv[e[1]], mol._bonds[i][j]._stereo)
         new_b[(mapping[i], mapping[j])] = s
     for n2, s in new_a.items():
         c._atoms[n2]._stereo = s
@@ -967,6 +973,16 @@ RING_JUNCTION_STEREO = [
 ]
 
 
+# chiral allenes with two heavy substituents on an end (the reference substituent of an end can be the first or the second
+# neighbour), cumulenes, and their mirror images
+ALLENES = ['CC(Cl)=[C@]=C(F)CC', 'CC(Cl)=[C@@]=C(F)CC', 'CC=[C@]=C(C)Cl', 'CC=[C@@]=C(C)Cl', 'ClC(F)=[C@]=C(Br)I',
+           'ClC(F)=[C@@]=C(Br)I', 'CC(N)=[C@]=C(C)O', 'OC(C)=[C@@]=C(Cl)CC', 'CC=[C@]=CCBr', 'CC(O)=[C@]=C(F)C(=O)O',
+           '[2H]C(C)=[C@]=C(C)Cl', 'CC(Cl)=[C@]=C(F)CC.Cl', 'CCC(C)=[C@]=C(C)c1ccccc1', 'CC(=[C@@]=C(O)CC)C(C)C',
+           'N#CC(C)=[C@]=C(F)OC', 'C[C@H](O)C(C)=[C@]=C(Cl)CC', 'CC(Cl)=[C@]=CC=[C@@]=C(F)CC']
+
+COUNTERPARTS = ['Cl', '[Na+]', 'O', 'CC(=O)O', 'OS(=O)(=O)O', 'C[C@H](N)CC', '[Cl-]']
+
+
 def ez_catalogue():
     """constitutionally equivalent stereo double bonds with EVERY E/Z label combination (conjugated, separated by sp3
     linkers, hetero atoms, carbonyls, aryl rings), plus non-equivalent controls"""
@@ -1069,6 +1085,47 @@ def attachment_decorations(rng, mol, per_class=2):
                     yield f'+2{sym}~@{n},{m2}', c.copy()
             except Exception:  # noqa
                 continue
+
+
+def multi_component_stereo(rng, k):
+    """stereo molecules as salts / mixtures, the stereo component before, after and between other components"""
+    pool = STEREO_PAIRS + EXPLICIT_H_STEREO + ALLENES + [t for t in molgen.HANDMADE if '@' in t or '/' in t]
+    pool = [t for t in pool if '.' not in t and ' ' not in t]
+    out = []
+    for _ in range(k):
+        t, c = rng.choice(pool), rng.choice(COUNTERPARTS)
+        r = rng.random()
+        out.append(f'{c}.{t}' if r < 0.4 else f'{t}.{c}' if r < 0.6 else f'{c}.{t}.{rng.choice(COUNTERPARTS)}'
+                   if r < 0.8 else f'{rng.choice(pool)}.{t}')
+    return out
+
+
+def rooted_spellings(rng, mol, limit=4):
+    """spellings by the library's own writer that START A COMPONENT AT A STEREO ATOM (or at a terminal of a stereo bond), with
+    that component written first and written last — the positions where readers and writers apply their first-atom rules.
+    (`_smiles(weights, random=True)` is the traversal the random-order writer uses; here the draw is chosen, not random.)"""
+    comps = [list(c) for c in mol.connected_components]
+    comp_of = {n: i for i, c in enumerate(comps) for n in c}
+    cands = [n for n, a in mol._atoms.items() if a._stereo is not None]
+    for n, ms in mol._bonds.items():
+        if any(b._stereo is not None for b in ms.values()):
+            cands.append(n)
+    rng.shuffle(cands)
+    out = []
+    for start in cands[:limit]:
+        for last in ((False, True) if len(comps) > 1 else (False,)):
+            noise = {n: rng.random() for n in mol._atoms}
+            rank = {i: rng.random() for i in range(len(comps))}
+            rank[comp_of[start]] = 2.0 if last else -1.0
+
+            def w(x, start=start, noise=noise, rank=rank):
+                return (rank[comp_of[x]], 0.0 if x == start else 1.0 + noise[x])
+            try:
+                out.append(''.join(mol._smiles(w, random=True)) +
+                           (f' {cx}' if (cx := mol._format_cxsmiles(mol._smiles(w, random=True, _return_order=True)[1])) else ''))
+            except Exception:  # noqa
+                continue
+    return out
 
 
 def isotope_decorations(mol, limit=3):
@@ -1264,7 +1321,8 @@ def relational_molecules(ctx):
     rng = ctx.rng
     out = []
     for s in molgen.HANDMADE + SYMMETRIC + STEREO_PAIRS + ISOTOPES + EXPLICIT_H_STEREO + ez_catalogue() + OLIGOMERS \
-            + RING_JUNCTION_STEREO + RADICALS + COORDINATED + DONORS + oligomers(rng, 50 if ctx.quick else 250):
+            + RING_JUNCTION_STEREO + RADICALS + COORDINATED + DONORS + ALLENES + multi_component_stereo(rng, 30 if ctx.quick else 200) \
+            + oligomers(rng, 50 if ctx.quick else 250):
         m = molgen.parse(s)
         if m is not None:
             out.append((s, s, m))
@@ -1389,6 +1447,18 @@ def relational(ctx, mols=None, nvar=None):
                 ctx.dist('R:skipped:reread-canonical:census-differs')
         except Exception as e:  # noqa
             ctx.dist('R:skipped:reread-canonical:' + type(e).__name__)
+        if stereo_elements(base):
+            from chython import smiles as _sm
+            for t in rooted_spellings(rng, base):
+                try:
+                    m2 = normalise(_sm(t))
+                except Exception as e:  # noqa
+                    ctx.dist('R:skipped:reread-rooted:' + type(e).__name__)
+                    continue
+                if census(m2) == census(base):
+                    compare(ctx, name, base, s0, h0, 'reread-own-writer-rooted-at-stereo-atom', m2, t)
+                else:
+                    ctx.dist('R:skipped:reread-rooted:census-differs')
         for _ in range(1 if not stereo_elements(base) else (8 if ring_junction_label(base) else 3)):
             try:
                 t, m2 = reread_own(rng, base)
@@ -1476,7 +1546,7 @@ def search(ctx):
     ctx.notes.append(f'search: {len(first)} distinct molecules from disagreeing K cases, '
                      f'{sum(1 for t in first if t[0] > 0)} of them with implementation classes coarser than an independent refinement')
     first = [(w, None, m) for _, _, w, m in first[:150]]
-    cat = COORDINATED + RADICALS + OLIGOMERS + RING_JUNCTION_STEREO + oligomers(ctx.rng, 150) + ISOTOPES + EXPLICIT_H_STEREO + ez_catalogue() + STEREO_PAIRS + SYMMETRIC + molgen.HANDMADE
+    cat = ALLENES + multi_component_stereo(ctx.rng, 120) + COORDINATED + RADICALS + OLIGOMERS + RING_JUNCTION_STEREO + oligomers(ctx.rng, 150) + ISOTOPES + EXPLICIT_H_STEREO + ez_catalogue() + STEREO_PAIRS + SYMMETRIC + molgen.HANDMADE
     deco = []
     for t in SYMMETRIC + molgen.HANDMADE:
         m = molgen.parse(t)
